@@ -375,12 +375,12 @@ func c10BuildCases(run *core.Run) []C10Case {
 	// 1b. every prefix of small hostile inputs (escapes, line continuations and percent escapes cut in the middle),
 	// alone and embedded where the helper functions are reached from
 	hostile := map[string][]string{
-		"text/css": {"a{content:\"x\\\ny\\\rz\\\r\nw\";b:url(data:,a%2f%41%)}", "a{b:url('data:image/gif,GIF89a%0A%');c:'q\\\r", "@import \"a\\\nb\\\r\";a{b:c\\\r}"},
-		"text/html": {"<style>a{content:\"x\\\ny\\\r\"}</style><p style=\"content:'a\\\n\\\r\">", "<a href=\"data:text/plain,a%2f%4\">x</a>"},
+		"text/css":               {"a{content:\"x\\\ny\\\rz\\\r\nw\";b:url(data:,a%2f%41%)}", "a{b:url('data:image/gif,GIF89a%0A%');c:'q\\\r", "@import \"a\\\nb\\\r\";a{b:c\\\r}"},
+		"text/html":              {"<style>a{content:\"x\\\ny\\\r\"}</style><p style=\"content:'a\\\n\\\r\">", "<a href=\"data:text/plain,a%2f%4\">x</a>"},
 		"application/javascript": {"x=\"a\\\nb\\\r\";y=`c\\\r${1}\\\r`;z='\\u{41}\\x4"},
-		"image/svg+xml": {"<svg><path d=\"M1e1 2e-1L.5.5z\" style=\"a:'b\\\n\\\r\"/></svg>"},
-		"text/xml": {"<a b=\"&#1\">&#x1;&am</a>"},
-		"application/json": {"{\"a\":\"\\u00\",\"b\":1.5e-}"},
+		"image/svg+xml":          {"<svg><path d=\"M1e1 2e-1L.5.5z\" style=\"a:'b\\\n\\\r\"/></svg>"},
+		"text/xml":               {"<a b=\"&#1\">&#x1;&am</a>"},
+		"application/json":       {"{\"a\":\"\\u00\",\"b\":1.5e-}"},
 	}
 	for _, mt := range sixTypes {
 		for hi, h := range hostile[mt] {
